@@ -21,8 +21,17 @@ import (
 	providerreg "github.com/primevprotocol/mev-commit/pkg/contracts/provider_registry"
 	"github.com/primevprotocol/mev-commit/pkg/evmclient"
 	mockevmclient "github.com/primevprotocol/mev-commit/pkg/evmclient/mock"
+	"time"
 	"verif/harness/vh"
+
+	"github.com/bufbuild/protovalidate-go"
+	bidderapiv1 "github.com/primevprotocol/mev-commit/gen/go/bidderapi/v1"
+	providerapiv1 "github.com/primevprotocol/mev-commit/gen/go/providerapi/v1"
+	bidderapi "github.com/primevprotocol/mev-commit/pkg/rpc/bidder"
+	providerapi "github.com/primevprotocol/mev-commit/pkg/rpc/provider"
 )
+
+var validator, _ = protovalidate.New()
 
 type Ans struct {
 	Err   bool   `json:"err"`
@@ -47,6 +56,8 @@ type In struct {
 	// measured call's own amount).
 	OverlapAmount string `json:"overlap_amount,omitempty"`
 	Measured      string `json:"measured,omitempty"` // held | other
+	// the two calls come in through the node's RPC service (RegisterStake / PrepayAllowance)
+	ViaRPC bool `json:"via_rpc,omitempty"`
 }
 type Prior struct {
 	Min Ans `json:"min"`
@@ -152,9 +163,26 @@ func run(in In) (obs Obs) {
 		if in.Which == "bidder" {
 			c := bidderreg.New(regAddr, cl, vh.Quiet())
 			op = func(v *big.Int) error { return c.PrepayAllowance(context.Background(), v) }
+			if in.ViaRPC {
+				svc := bidderapi.NewService(nil, addr, c, validator, vh.Quiet())
+				op = func(v *big.Int) error {
+					_, err := svc.PrepayAllowance(context.Background(), &bidderapiv1.PrepayRequest{Amount: v.String()})
+					return err
+				}
+			}
 		} else {
 			c := providerreg.New(regAddr, cl, vh.Quiet())
 			op = func(v *big.Int) error { return c.RegisterProvider(context.Background(), v) }
+			if in.ViaRPC {
+				svc := providerapi.NewService(vh.Quiet(), c, addr, nil, validator)
+				op = func(v *big.Int) error {
+					_, err := svc.RegisterStake(context.Background(), &providerapiv1.StakeRequest{Amount: v.String()})
+					return err
+				}
+			}
+		}
+		if in.ViaRPC { // the services read the balance back after the operation
+			curMin, curAmt = Ans{Bytes: strings.Repeat("00", 31) + "0a"}, Ans{Bytes: strings.Repeat("00", 31) + "14"}
 		}
 		heldAmt, otherAmt := in.Amount, in.OverlapAmount
 		if in.Measured == "other" {
@@ -175,9 +203,26 @@ func run(in In) (obs Obs) {
 			obsHeld.OK = ok
 			heldDone <- ok
 		}
-		otherOK := op(vh.Big(otherAmt)) == nil
+		otherDone := make(chan bool, 1)
+		go func() {
+			defer func() {
+				if recover() != nil {
+					otherDone <- false
+				}
+			}()
+			otherDone <- op(vh.Big(otherAmt)) == nil
+		}()
+		otherOK, got := false, false
+		select {
+		case otherOK = <-otherDone:
+			got = true
+		case <-time.After(5 * time.Second): // it waits for the held one instead of doing its own work
+		}
 		close(heldGo)
 		obsHeld.OK = <-heldDone
+		if !got {
+			otherOK = <-otherDone
+		}
 		obsHeld.Waited = obs.Waited
 		if in.Measured == "other" {
 			obs.OK = otherOK
@@ -305,6 +350,13 @@ func main() {
 								in2.Tag, in2.Measured = tag+"-overlapping", m
 								in2.OverlapAmount = new(big.Int).Add(new(big.Int).Mul(amt, big.NewInt(5)), big.NewInt(3)).String()
 								out.Emit(in2, run(in2))
+								if amt.BitLen() < 60 && status == 1 && !waitErr {
+									// through the RPC services; also two requests for the very same amount
+									in2.ViaRPC, in2.Tag = true, tag+"-overlapping-rpc"
+									out.Emit(in2, run(in2))
+									in2.OverlapAmount, in2.Tag = in2.Amount, tag+"-overlapping-rpc-same-amount"
+									out.Emit(in2, run(in2))
+								}
 							}
 						}
 					}
